@@ -546,6 +546,25 @@ static std::string step(Line const& ln)
     if (op == "rotate")
         return inplace_fwd([&](auto F, auto L, E* a0, auto mk) { auto r = etl::rotate(F, mk(a0 + m), L); return IDX(r) + " " + arr(a0); },
             [&](E* F, E* L, E* a0, auto) { auto r = std::rotate(F, a0 + m, L); return IDX(r) + " " + arr(a0); });
+    if (op == "reverse" && it == "rptr") { // the same range seen through reverse_iterators (random access: `first < last`)
+        Buf a(av), s(av);
+        std::string re = impl([&] { etl::reverse(etl::make_reverse_iterator(a.p + l), etl::make_reverse_iterator(a.p + f)); return arr(a.p); });
+        std::reverse(std::make_reverse_iterator(s.p + l), std::make_reverse_iterator(s.p + f));
+        return out(re, arr(s.p));
+    }
+    if (op == "rit_rel") { // relational operators of reverse_iterator: positions i, j of the base iterators
+        Buf a(av);
+        auto const i = static_cast<std::size_t>(ln.i("i")), j = static_cast<std::size_t>(ln.i("j"));
+        auto e1 = etl::make_reverse_iterator(a.p + i), e2 = etl::make_reverse_iterator(a.p + j);
+        auto s1 = std::make_reverse_iterator(a.p + i), s2 = std::make_reverse_iterator(a.p + j);
+        auto f6 = [](bool a0, bool b0, bool c0, bool d0, bool e0, bool g0) {
+            std::string r;
+            for (bool x : {a0, b0, c0, d0, e0, g0}) r += x ? '1' : '0';
+            return r + "";
+        };
+        std::string re = impl([&] { return f6(e1 == e2, e1 != e2, e1 < e2, e1 <= e2, e1 > e2, e1 >= e2) + " d=" + std::to_string(e2 - e1); });
+        return out(re, f6(s1 == s2, s1 != s2, s1 < s2, s1 <= s2, s1 > s2, s1 >= s2) + " d=" + std::to_string(s2 - s1));
+    }
     if (op == "reverse")
         return inplace_bidi([&](auto F, auto L, E* a0, auto) { etl::reverse(F, L); return arr(a0); }, [&](E* F, E* L, E* a0, auto) { std::reverse(F, L); return arr(a0); });
     if (op == "swap_ranges") {
